@@ -1,6 +1,7 @@
 package main
 
 import (
+	"bytes"
 	"fmt"
 	"strings"
 
@@ -214,6 +215,52 @@ func makeView(ws *WalkScn, blocks []*commonmark.RootBlock) *walkView {
 		v.child = func(n commonmark.Node, i int) commonmark.Node {
 			if g := grafts(n); g > 0 {
 				return donor[i%len(donor)].AsNode()
+			}
+			return n.Child(i)
+		}
+	case "grouped":
+		// the zero Node as an INTERIOR node: the children of one block (the
+		// first in document order, below the root, that the seed selects) are
+		// presented under a single anonymous group node, Node{}.  The group is
+		// not a block, so the nearest enclosing block of what lies below it is
+		// still the block above it.
+		v.root = pickRoot()
+		var grouped commonmark.Node
+		var find func(n commonmark.Node) bool
+		find = func(n commonmark.Node) bool {
+			if n.Block() != nil && n.ChildCount() > 0 && mix64(ws.HideSeed^nodeKey(n)^0xbb67ae85)%3 != 0 {
+				grouped = n
+				return true
+			}
+			for i, c := 0, n.ChildCount(); i < c; i++ {
+				if find(n.Child(i)) {
+					return true
+				}
+			}
+			return false
+		}
+		if v.root != zero {
+			find(v.root)
+		}
+		v.childCount = func(n commonmark.Node) int {
+			switch {
+			case grouped == zero:
+				return n.ChildCount()
+			case n == grouped:
+				return 1
+			case n == zero:
+				return grouped.ChildCount()
+			}
+			return n.ChildCount()
+		}
+		v.child = func(n commonmark.Node, i int) commonmark.Node {
+			switch {
+			case grouped == zero:
+				return n.Child(i)
+			case n == grouped:
+				return zero
+			case n == zero:
+				return grouped.Child(i)
 			}
 			return n.Child(i)
 		}
@@ -580,10 +627,48 @@ func histDigest(h []walkEvent) string {
 	return sb.String()
 }
 
+// treeForWalk builds the tree of a walk scenario (WalkScn.Tree).
+func treeForWalk(doc []byte, ws *WalkScn) []*commonmark.RootBlock {
+	if ws.Tree == "" {
+		blocks, _ := commonmark.Parse(append([]byte(nil), doc...))
+		return blocks
+	}
+	p := commonmark.NewBlockParser(bytes.NewReader(append([]byte(nil), doc...)))
+	var blocks []*commonmark.RootBlock
+	refs := make(commonmark.ReferenceMap)
+	for {
+		b, err := p.NextBlock()
+		if err != nil || b == nil {
+			break
+		}
+		blocks = append(blocks, b)
+		refs.Extract(b.Source, b.AsNode())
+		if len(blocks) > 4*len(doc)+16 {
+			break
+		}
+	}
+	if ws.Tree == "unparsed" {
+		return blocks
+	}
+	// the caller looks at what it has received before completing it
+	all := func(*commonmark.Cursor) bool { return true }
+	for _, b := range blocks {
+		commonmark.Walk(b.AsNode(), &commonmark.WalkOptions{Pre: all, Post: all})
+	}
+	if v := makeView(ws, blocks); v.childCount != nil || v.child != nil {
+		commonmark.Walk(v.root, &commonmark.WalkOptions{Pre: all, Post: all, ChildCount: v.childCount, Child: v.child})
+	}
+	ip := &commonmark.InlineParser{ReferenceMatcher: refs}
+	for _, b := range blocks {
+		ip.Rewrite(b)
+	}
+	return blocks
+}
+
 // checkC18 runs one walk scenario against the reference model.
 func checkC18(s *Scenario) (*Failure, *walkObs) {
-	blocks, _ := commonmark.Parse(append([]byte(nil), s.Doc...))
 	ws := s.Walk
+	blocks := treeForWalk(s.Doc, ws)
 	v := makeView(ws, blocks)
 	want := refWalk(v, ws)
 	var obs *walkObs
